@@ -22,6 +22,7 @@ import (
 	"github.com/ontio/ontology/core/types"
 	"github.com/ontio/ontology/core/validation"
 	ontErrors "github.com/ontio/ontology/errors"
+	"github.com/ontio/ontology/smartcontract/service/native/global_params"
 	"github.com/ontio/ontology/smartcontract/service/native/ont"
 	nutils "github.com/ontio/ontology/smartcontract/service/native/utils"
 	"github.com/ontio/ontology/vm/neovm"
@@ -368,12 +369,43 @@ func main() {
 			}
 			pos := sub.Intn(len(txs) + 1)
 			txs = append(txs[:pos], append([]*types.Transaction{vtx}, txs[pos:]...)...)
+			// witness probe authorised by the same variant: CheckWitness over a list of accounts (zero address,
+			// token contracts, this and another variant's account, an ordinary account, a random one), each
+			// answer notified, plus an approve whose `from` is the zero address (needs only its witness)
+			var rnd common.Address
+			copy(rnd[:], sub.Bytes(20))
+			pa := chain.NewAsm()
+			for _, a := range []common.Address{{}, nutils.OntContractAddress, nutils.OngContractAddress, v.addr, variants[(vi+1)%len(variants)].addr, w.Accts[1].Address, rnd} {
+				pa.Push(a[:]).Syscall("System.Runtime.CheckWitness").Syscall("System.Runtime.Notify")
+			}
+			pm := w.TB.Invoke(0, 60000, pa.Bytes())
+			pm.Payer = v.addr
+			if ptx, err := signedTx(pm, []variant{v}, sub); err == nil {
+				txs = append(txs, ptx)
+				r.Count("witness_probe_txs")
+			}
+			zm, _ := w.TB.Native(0, 30000, nutils.OntContractAddress, "approve", []interface{}{&ont.TransferState{From: common.Address{}, To: sink, Value: 7}})
+			zm.Payer = v.addr
+			if ztx, err := signedTx(zm, []variant{v}, sub); err == nil {
+				txs = append(txs, ztx)
+			}
+			// every few blocks the on-chain gas schedule changes (global params: setGlobalParam + createSnapshot
+			// by the operator), so that outcomes of the gas-limited transactions above depend on the schedule in force
+			if h%5 == 0 {
+				val := []string{"60000", "1000", "25000", "3000"}[(h/5)%4]
+				ps := global_params.Params{{Key: "Ontology.Native.Invoke", Value: val}, {Key: "System.Runtime.CheckWitness", Value: []string{"200", "20000", "900"}[(h/5)%3]}}
+				m1, _ := w.TB.Native(0, 100000000, nutils.ParamContractAddress, global_params.SET_GLOBAL_PARAM_NAME, []interface{}{ps})
+				chain.Sign(m1, w.BK)
+				m2, _ := w.TB.Native(0, 100000000, nutils.ParamContractAddress, global_params.CREATE_SNAPSHOT_NAME, []interface{}{"createSnapshot"})
+				chain.Sign(m2, w.BK)
+				txs = append(txs, chain.Immutable(m1), chain.Immutable(m2))
+				r.Count("gas_schedule_changes")
+			}
 			before := r.Counter("validator_rejected/" + v.name)
 			commit(h, txs, v.name)
 			if r.Counter("validator_rejected/"+v.name) == before {
 				r.Count("variant_accepted_by_validator/" + v.name)
 			}
-			_ = vi
 		}
 	}
 	bf.Close()
@@ -419,6 +451,8 @@ func main() {
 	}
 	r.Sample(map[string]interface{}{"variants": names, "blocks": len(fpsA)})
 	r.Require("sync_node_agrees", 10)
+	r.Require("witness_probe_txs", 10)
+	r.Require("gas_schedule_changes", 2)
 	r.Require("child_node_agrees", 10)
 	r.Require("blocks_reexecuted", 10)
 	r.Assume("all nodes run the same binary on the same architecture; WASM contracts not driven")
